@@ -20,6 +20,11 @@ CHECKS = {
     technique="TLA+ reference semantics of the 24 field operations (Field.tla) enumerated by TLC over all small prime fields and replayed on circom_algebra; TLC-checked boundary laws and Ref-established relations instantiated on the three real primes",
     text="Exhaustive for every odd prime <= 31 (thorough: up to 61, plus 127 and 257): every operand pair of every operation with Ref's value or error, replayed on the real functions with panics captured. For BN254/BLS12-381/Goldilocks TLC cannot evaluate the arithmetic: the check runs boundary laws that TLC verified on every small prime, over-large shift counts under a time/memory cap, and algebraic relations TLC proved for Ref, on boundary and random operands (exploration level for the real primes).",
     note="Field.tla is the authority for Circom's semantics; a defect that exists only for 254-bit operands away from the listed boundaries and not violating the relations would be missed."),
+ "C11": dict(
+    level="model_checking", design="§5 C11",
+    technique="TLA+ constant table and threshold rules (Curves.tla) enumerated by TLC into cases replayed through the real pipeline and the real binary's --curve option",
+    text="Exhaustive over the finite space the property quantifies: 3 curves x (26 documented names + ~110 near-miss names), every constant size 0..300 plus constant-expression and parameter forms for Num2Bits/Bits2Num and for the LessThan range check, with the verdict computed by Curves.tla (documented table, 254-bit threshold, k <= bits-2 lemma checked by TLC on small primes); each case is rendered as a template and run through the in-process pipeline with that curve. All 1568 case variants of the curve names and 23 wrong names go through the library parser and (sample / all in thorough) the real binary.",
+    note="The documented table with Circomlib's spelling is the authority; template rendering and counting of findings by id and label text is trusted."),
 }
 
 NOT_YET = "check not built yet (work in progress; see DESIGN.md §8 for the order)"
